@@ -431,6 +431,13 @@ func c05Alphabet() []c05Op {
 			ops = append(ops, c05Op{Name: o, P: n})
 		}
 	}
+	// ".." directly behind a name that may be a symbolic link to a directory elsewhere: the path names an entry of
+	// the link target's parent, which a lexical clean-up gets wrong
+	for _, n := range []string{"c/../x", "$ROOT/c/../x"} {
+		for _, o := range []string{"RemoveAll", "Remove", "ReadDir", "Walk", "Stat", "Lstat", "Mkdir", "MkdirAll"} {
+			ops = append(ops, c05Op{Name: o, P: n})
+		}
+	}
 	ops = append(ops, c05Op{Name: "MkdirAll", P: "c/x"}, c05Op{Name: "MkdirAll", P: "$ROOT/c/x"},
 		c05Op{Name: "RealPath", P: "a/../b"}, c05Op{Name: "RealPath", P: "./a/"}, c05Op{Name: "RealPath", P: "/"})
 	pairs := [][2]string{{"a", "b"}, {"b", "a"}, {"a", "c"}, {"c", "a"}, {"a/x", "b/x"}, {"a/x", "c"}, {"b", "a/x"}, {"a", "a"}, {"a", "a/x"},
@@ -916,6 +923,8 @@ func c05Seeds() []c05State {
 		{d("a", 0o755, 1), d("a/x", 0o755, 2), d("b", 0o750, 3), l("b/x", "../a", 4), l("c", "$ROOT/a/x", 5)}, // nested directories, symlinks inside, absolute target
 		{d("a", 0o755, 1), {Path: "a/x", Kind: "s", Mode: 0o644, Mtime: c05T0 + 2, Group: -1}, {Path: "b", Kind: "s", Mode: 0o600, Mtime: c05T0 + 3, Group: -1},
 			{Path: "c", Kind: "c", Mode: 0o666, Mtime: c05T0 + 4, Group: -1}}, // other file kinds: sockets (inside a directory and at the top), a character device
+		// c -> a/x, a directory whose parent is not the link's parent: "c/../x" is a/x (non-empty), whereas the lexically cleaned "x" is another directory
+		{d("a", 0o755, 1), d("a/x", 0o755, 2), f("a/x/y", "yy", 0o644, 3), l("c", "a/x", 4), d("x", 0o755, 5), f("x/y", "top", 0o644, 6)},
 	}
 }
 
@@ -974,11 +983,27 @@ func c05Judge(env *c05Env, res *reg.Result, st c05State, op c05Op, history []str
 				// two-path operations: the pair of categories names the defect, the shapes stay in the message
 				key = fmt.Sprintf("c05:%s:%s", d.Kind, form)
 			}
+			if c05RelDotDot(op) {
+				// a working-directory-relative path with a ".." element: the server joins it to its working directory lexically
+				// (known finding F3); such cases get a key of their own so that nothing else hides behind it
+				key = "c05:rel-dotdot:" + strings.TrimPrefix(key, "c05:")
+			}
 			msg := fmt.Sprintf("%s [arguments: %s; uid %d] on pre-state %q (history %v):\n%s", op, fine, uid, st.lines(true, true), history, d.Msg)
 			res.Violate("C05", key, msg, c05Replay{State: st, Op: op, History: history, Uid: uid}, history)
 		}
 	}
 	return snapB
+}
+
+// c05RelDotDot: a path argument that the server resolves is relative and contains a ".." element.
+func c05RelDotDot(op c05Op) bool {
+	has := func(p string) bool {
+		return p != "" && !strings.HasPrefix(p, "$ROOT") && !strings.HasPrefix(p, "/") && (strings.Contains(p, "/../") || strings.HasPrefix(p, "../") || strings.HasSuffix(p, "/.."))
+	}
+	if op.Name == "Symlink" {
+		return has(op.Q) // P is the link text, stored as given
+	}
+	return has(op.P) || has(op.Q)
 }
 
 func c05Part(c *reg.Ctx) *reg.Result {
